@@ -1,5 +1,6 @@
 """C20 Boot sends the complete image carrying this call's options only."""
 import os
+import warnings
 import shutil
 import struct
 import tempfile
@@ -76,7 +77,7 @@ def strat_history(draw, tier):
         # ICMP error): the datagram handed to that send is NOT transmitted
         refuse = draw(st.sampled_from([None] * 14 + [0, 1, 2, 4, 7]))
         calls.append({
-            "refuse_send": refuse,
+            "refuse_send": refuse, "dims": draw(st.booleans()),
             "via": draw(st.sampled_from(["boot", "boot", "controller"])),
             "preset": preset, "extra": extra,
             "style": draw(st.sampled_from(["kwargs", "sv_overrides", "both",
@@ -185,8 +186,14 @@ def check_history(case):
                         else:
                             from rig.machine_control import MachineController
                             mc = MachineController(host)
-                            ok = mc.boot(only_if_needed=bool(i % 2),
-                                         check_booted=False, **kwargs)
+                            # (the deprecated width and height arguments
+                            # are documented as ignored)
+                            dims = (8, 8) if call.get("dims") else ()
+                            with warnings.catch_warnings():
+                                warnings.simplefilter("ignore")
+                                ok = mc.boot(*dims,
+                                             only_if_needed=bool(i % 2),
+                                             check_booted=False, **kwargs)
                             require(ok is True, "MachineController.boot did "
                                     "not report that it booted the machine",
                                     {})
